@@ -6,6 +6,7 @@ From Coq Require Import List ZArith QArith Qround Bool.
 From PV Require Import lib.Sx lib.Str lib.Result lib.Dec.
 From PV Require Import model.Base spec.SpecBase model.TimeWrite spec.SpecTimeW proofs.TimeWriteFacts.
 From PV Require model.Langs spec.SpecTimeSamiDoc proofs.TimeSamiDocFacts proofs.TimeFloatFacts.
+From PV Require model.DfxpWriteDoc model.XmlRead spec.SpecXmlDocT proofs.DfxpWriteDocFacts.
 Import ListNotations.
 Open Scope Z_scope.
 
@@ -273,3 +274,63 @@ Proof. exact TimeFloatFacts.mdvd_frames_binary64. Qed.
 Print Assumptions C02_mdvd_frames_binary64.
 Example C02_ex_rounding_premise : TimeFloatFacts.rounds_like_binary64_below_2p22 (fun y => y).
 Proof. exact TimeFloatFacts.rounds_like_id. Qed.
+
+(* ---- wave 7: the DFXP DOCUMENT at string level (C02 o C01 on whole documents) -------------------------------------
+   DfxpWriteDoc.dfxp_write_doc lang cs = the text DFXPWriter prints for one language of captions given as text lines
+   (compared with the real writer character by character on every run: request 207).  XmlRead.dfxp_read_string = the
+   string-level model of DFXPReader (C01_dfxp_string_exact).  floor_cue c = (start, end) floored to the millisecond. *)
+Module DfxpDocument.
+Import model.DfxpWriteDoc model.XmlRead spec.SpecXmlDocT proofs.DfxpWriteDocFacts.
+Open Scope Z_scope.
+
+(* the written document is a well-formed rendering of an abstract document (hence parses: C01_dfxp_text_to_tree) *)
+Theorem C02_dfxp_document_wellformed : forall lang cs, forallb wcap_ok cs = true -> xdoc_ok (wdoc lang cs) = true.
+Proof. exact wdoc_ok. Qed.
+Print Assumptions C02_dfxp_document_wellformed.
+
+(* its begin / end attributes are the tokens of the C02 writer model (the shared formatter), followed by region / style *)
+Theorem C02_dfxp_document_tokens : forall c : wcap, 0 <= fst (fst c) < day -> 0 <= snd (fst c) < day ->
+  pattrs_list (wp_attrs c)
+  = [mkRa f1 (lit "begin") (dfxp_ts (inject_Z (fst (fst c)))); mkRa f1 (lit "end") (dfxp_ts (inject_Z (snd (fst c))));
+     at1 (lit "region") (lit "bottom"); at1 (lit "style") (lit "default")].
+Proof. exact dfxp_document_tokens. Qed.
+Print Assumptions C02_dfxp_document_tokens.
+
+(* for EVERY list of captions (any number, any order, overlapping, equal spans) with integer times below 24 h and visible
+   text, in any language name: reading the written text back yields exactly one caption per caption, in order, under
+   that language, with start and end truncated to the millisecond *)
+Theorem C02_dfxp_document_string : forall default lang cs, cs <> [] -> forallb wcap_ok cs = true ->
+  dfxp_read_string default (dfxp_write_doc lang cs) = Ok [(lang, map floor_cue cs)].
+Proof. exact dfxp_document_string. Qed.
+Print Assumptions C02_dfxp_document_string.
+
+Example C02_ex_dfxp_document :
+  let cs := [(1000999, 2500000, [lit "hello"; lit "a & <b>"]); (3600000000, 3600040999, [lit "42"])] in
+  forallb wcap_ok cs = true /\
+  dfxp_write_doc (lit "en-US") cs = lit "<?xml version=""1.0"" encoding=""utf-8""?>
+<tt xml:lang=""en"" xmlns=""http://www.w3.org/ns/ttml"" xmlns:tts=""http://www.w3.org/ns/ttml#styling"">
+ <head>
+  <styling>
+   <style tts:color=""white"" tts:fontFamily=""monospace"" tts:fontSize=""1c"" xml:id=""default""/>
+  </styling>
+  <layout>
+   <region tts:displayAlign=""after"" tts:textAlign=""start"" xml:id=""bottom""/>
+  </layout>
+ </head>
+ <body>
+  <div region=""bottom"" xml:lang=""en-US"">
+   <p begin=""00:00:01.000"" end=""00:00:02.500"" region=""bottom"" style=""default"">
+    hello<br/>
+    a &amp; &lt;b&gt;
+   </p>
+   <p begin=""01:00:00.000"" end=""01:00:00.040"" region=""bottom"" style=""default"">
+    42
+   </p>
+  </div>
+ </body>
+</tt>
+" /\
+  dfxp_read_string (lit "und") (dfxp_write_doc (lit "en-US") cs)
+  = Ok [(lit "en-US", [(1000000, 2500000); (3600000000, 3600040000)])].
+Proof. vm_compute. repeat split; reflexivity. Qed.
+End DfxpDocument.
